@@ -231,11 +231,24 @@ def internal_error(e: PyExc):
                           'StopIteration', 'NonFiniteResult', 'UnboundLocalError')
 
 
-def names_method(e: PyExc, ec):
-    """Does the refusal's message contain the value of some configured method?"""
+UNSUPPORTED_VALUES = {'pmnvol_method': ['FOA3']}      # documented option values the trajectory part refuses (not implemented)
+
+
+def names_method(e: PyExc, ec, h=None):
+    """Is the refusal about an option whose value really is unsupported, and does its message name that value?  (Naming the
+    value of some other option - a supported one - is not naming the unsupported method.)"""
     parts = e.inst.message_parts()
-    text = ''.join(str(p) for p in parts if isinstance(p, str))
-    for p in parts:
-        if isinstance(p, (SymEnum, EnumMember)):
-            return True
-    return any(v in text for v in ('p3t3', 'foa3', 'meem', 'scope11', 'fuel_flow', 'bffm2', 'none'))
+    text = ''.join(str(p) if isinstance(p, str) else (str(getattr(p, 'value', '')) if isinstance(p, EnumMember) else '') for p in parts)
+    for opt, names in UNSUPPORTED_VALUES.items():
+        v = ec.attrs.get(opt)
+        for nm in names:
+            if isinstance(v, EnumMember):
+                hit, member = v.name == nm, v
+            elif isinstance(v, SymEnum):
+                member = next(m for m in v.cls.members if m.name == nm)
+                hit = h is not None and h.ctx.entails(v.ord == member.index)
+            else:
+                continue
+            if hit:
+                return str(member.value) in text
+    return False
